@@ -18,12 +18,18 @@ HPAR = os.path.join(vlib.VERIF, "harness", "h_par.cpp")
 HSAMP = os.path.join(vlib.VERIF, "harness", "h_sampling.cpp")
 
 
-def tissue(wd, r, n_cells):
+def tissue(wd, r, n_cells, mixed=False):
+    """`mixed`: cells of different types (epithelial / lumen, whose parameter sets differ: see the bending modulus override of
+    the caller) and of very different sizes, the big one first — whatever one cell decides must not leak into another"""
     cells = []
     for i in range(n_cells):
         st = (1.0 + 0.2 * r.uniform(-1, 1), 1.0 + 0.2 * r.uniform(-1, 1), 1.0 + 0.2 * r.uniform(-1, 1))
         lvl = r.choice([1, 2, 2])
-        cells.append(SC.icosphere(lvl, 5e-6 * r.uniform(0.8, 1.3), (i * 4.1e-5, r.uniform(-1, 1) * 1e-6, 0.0), st) + (0,))
+        ty = 0
+        if mixed:
+            lvl = 3 if i == 0 else 1
+            ty = 0 if i % 2 == 0 else 2
+        cells.append(SC.icosphere(lvl, 5e-6 * r.uniform(0.8, 1.3), (i * 4.1e-5, r.uniform(-1, 1) * 1e-6, 0.0), st) + (ty,))
     path = os.path.join(wd, "tissue.vtk")
     SC.write_vtk(path, cells)
     return path
@@ -55,9 +61,14 @@ def run(ctx):
     for k in range(n_tissues):
         with SC.Workdir() as wd:
             ncell = r.randint(2, 5)
-            mesh = tissue(wd, r, ncell)
+            mixed = (k % 2 == 1)
+            mesh = tissue(wd, r, ncell, mixed)
             sw = r.choice(["0", "1"])
-            params = SC.make_params(wd, mesh, "7.5e-7", {"perform_initial_triangulation": "0", "enable_edge_swap_operation": sw}, SC.DETERMINISTIC)
+            ov = {"perform_initial_triangulation": "0", "enable_edge_swap_operation": sw}
+            if mixed:
+                ov["bending_modulus"] = "5e-19"       # first face type of the first cell type only: epithelial cells bend, lumen cells do not
+            params = SC.make_params(wd, mesh, "7.5e-7", ov, SC.DETERMINISTIC)
+            stats["mixed_type_tissues"] = stats.get("mixed_type_tissues", 0) + (1 if mixed else 0)
             iters = r.choice([30, 60]) if not wide else r.choice([60, 150])
             ref = None
             for th in thread_sets[0]:
